@@ -1,15 +1,18 @@
-(* C04 Designer constraint arrays are the exact closure of the specification -- PARTIAL:
-   proved at the level of the seeded link graph of Convert.get_constraints (strand positions
-   plus the auxiliary (num, x) nodes): the closure step is exact and never asserts, each
-   representative is the lowest position of its class, two positions share an equality
-   representative iff they are forced equal, the complement representative is the equality
-   representative of the complementary class (none iff there is none), and the strand layout
-   obeys its formula.  NOT yet proved: that closure over the auxiliary nodes, restricted to
-   strand positions, coincides with the closure of the document's denotation (no auxiliary
-   nodes), and the template-intersection clause; both are decided per case by the
-   denotation-level oracle of the correspondence check. *)
+(* C04 Designer constraint arrays are the exact closure of the specification.
+   Proved for the designer model, at the level of the link graph Convert.get_constraints seeds
+   (strand positions plus the auxiliary (num, x) nodes), for every document whose seeded graph
+   passes the boolean check graph_ok (evaluated for every generated case by the extracted model):
+   the closure step is exact and never asserts; each representative is the lowest position of its
+   class; two positions share an equality representative iff they are forced equal; the complement
+   representative is the equality representative of the complementary class (none iff there is
+   none); every position's base code denotes exactly the intersection of the templates of its
+   equality class with the complements of the templates of its complementary class
+   (C04_template_clause); the strand layout obeys its formula.
+   NOT proved in Coq: that connectivity through the auxiliary nodes, restricted to strand
+   positions, coincides with the equalities forced by the document's denotation; that part is
+   decided per case by the denotation-level oracle of the correspondence check. *)
 From Coq Require Import List String Ascii Arith.
-From PC Require Import Comp.Compile Design.Propagate Design.PropagateProofs Design.Designer Design.DesignerProofs.
+From PC Require Import Base.Codes Comp.Syntax Comp.Compile Design.Propagate Design.PropagateProofs Design.Designer Design.DesignerProofs Design.TemplateProofs.
 Import ListNotations.
 
 Theorem C04_closure_exact_partial : forall g, graph_closed g = true ->
@@ -55,3 +58,19 @@ Theorem C04_strand_layout : forall ss acc pre n its l d post, ss = pre ++ (n, (i
   afind (strand_starts ss acc) n = Some (acc + fold_left (fun a '(_, (_, l', _)) => a + l' + 2) pre 0).
 Proof. exact strand_starts_spec. Qed.
 Print Assumptions C04_strand_layout.
+
+(* the template array: every initialised position carries exactly the class intersection, every
+   other slot is blank *)
+Theorem C04_template_clause : forall p so lay g, seed p so = OK (lay, g) -> graph_ok g = true ->
+  forall e w s, get_constraints p so = DOk e w s -> forall i, i < List.length s ->
+  (In i (g_keys g) -> exists c S, nth_error s i = Some (Some c) /\ group c = Some S /\ bempty S = false /\
+                                  forall b, bmem b S = true <-> gclass g i b) /\
+  (~ In i (g_keys g) -> nth_error s i = Some None).
+Proof. exact template_clause. Qed.
+Print Assumptions C04_template_clause.
+
+(* once the graph is seeded, constraint generation either returns arrays or reports over-constraint *)
+Theorem C04_seeded_total : forall p so lay g, seed p so = OK (lay, g) -> graph_ok g = true ->
+  get_constraints p so = DOver \/ exists e w s, get_constraints p so = DOk e w s.
+Proof. exact seeded_total. Qed.
+Print Assumptions C04_seeded_total.
